@@ -66,6 +66,7 @@ Through(e, s, p, m) ==
        b == RenderBinds(e, s, v)
        right == sql = f.sql /\ b = f.binds
    IN [sql |-> sql, binds |-> b, lk |-> IF Name(s) = e.sh THEN f.lk ELSE "other statement's result map",
+       tv |-> IF Name(s) = e.sh THEN f.tv ELSE "other statement's result processors",
        ids |-> IF right THEN f.ids ELSE <<0 - 1>>, ids2 |-> IF right THEN f.ids2 ELSE <<0 - 1>>,
        c2 |-> f.c2, rc |-> IF right THEN f.rc ELSE 0 - 2, sec |-> f.sec, dev |-> f.dev]
 
@@ -86,7 +87,7 @@ DoExec(s0, s, p, m, mode) ==
             l2 == IF two THEN Lookup(l1.cache, SecKey(m), "selectin", p, m) ELSE l1
         IN R([s0 EXCEPT !.cache = l2.cache],
              [out |-> IF err THEN "InvalidRequestError" ELSE "ok", hit |-> l1.hit, hit2 |-> IF two THEN l2.hit ELSE "-",
-              obs |-> IF err THEN [sql |-> "-", lk |-> "-", binds |-> <<>>, ids |-> <<>>, ids2 |-> <<>>, c2 |-> FALSE, rc |-> 0 - 1, sec |-> <<>>, dev |-> FALSE] ELSE obs])
+              obs |-> IF err THEN [sql |-> "-", lk |-> "-", tv |-> "-", binds |-> <<>>, ids |-> <<>>, ids2 |-> <<>>, c2 |-> FALSE, rc |-> 0 - 1, sec |-> <<>>, dev |-> FALSE] ELSE obs])
 DoClear(s0) == R([s0 EXCEPT !.cache = <<>>], [out |-> "ok", hit |-> "-", hit2 |-> "-", obs |-> "-"])
 
 \* ---------- actions ----------
@@ -114,7 +115,7 @@ LS == ByName[last.sh]
 \* C02 clause 1 / C16 / C17: SQL, bound values, rows are those of F - whatever the cache holds and whichever mode is used
 Transparent == (IsExec /\ last.ret.out = "ok") =>
                   LET f == F(LS, V[last.p], last.m) o == last.ret.obs IN
-                  o.sql = f.sql /\ o.binds = f.binds /\ o.ids = f.ids /\ o.ids2 = f.ids2 /\ o.rc = f.rc /\ o.lk = f.lk
+                  o.sql = f.sql /\ o.binds = f.binds /\ o.ids = f.ids /\ o.ids2 = f.ids2 /\ o.rc = f.rc /\ o.lk = f.lk /\ o.tv = f.tv
 \* C02 clause 3: a cached compilation receives the values of the statement being executed, never those of the populating one
 NoStaleValues == (IsExec /\ last.ret.out = "ok" /\ last.ret.hit = "hit") => last.ret.obs.binds = Binds(LS, V[last.p])
 \* C02 clause 2: statements with equal keys compile to the same SQL (up to the post-compile parts) and the same placeholder layout
